@@ -1353,8 +1353,25 @@ def finding_matches(fid, inp, obs, why):
                     and ("NoBindLocation" in why or "NotBranchError" in why))
         return False
     if fid == "C52-upgrade-5to6-empty-push-location":
-        return (why.startswith("branch-payload-changed") and FORMATS[inp["src"]][4] == 5
-                and FORMATS[inp["dst"]][4] > 5 and why.rstrip().endswith(", 0]]"))
+        # exactly: the only branch-payload difference in any directory is push None -> "" on a converted format-5 branch
+        if not (why.startswith("branch-payload-changed") and FORMATS[inp["src"]][4] == 5 and FORMATS[inp["dst"]][4] > 5):
+            return False
+        if isinstance(obs, Err) or obs.get("after") is None:
+            return False
+        seen = False
+        for bm, am in zip(obs["before_m"], [obs["model"][1]] + list(obs["model"][2])):
+            if bm[2] is None:
+                continue
+            if am[2] is None:
+                return False
+            b, a = bm[2][1], am[2][1]
+            if b == a:
+                continue
+            if bm[2][0] == 5 and b[:4] == a[:4] and b[4] is None and a[4] == 0:
+                seen = True
+            else:
+                return False
+        return seen
     if fid == "C52-upgrade-colo-hang":
         return why.startswith("upgrade-hang:") and FORMATS[inp["dst"]][0]
     if fid == "C52-upgrade-tree-downgrade-hang":
